@@ -291,6 +291,13 @@ def dimension_reduction(name, seed, heuristic, tol_dr=1e-4, eig_reg=None):
         check_primal(pep, dict(h, exprs=[], points=[]), obj, td + tol_dr, w, fails)
         fails[:] = [f for f in fails if f[1] != 'objective']
         fails[:] = [('C14',) + f[1:] if f[0] == 'C02' else f for f in fails]
+        tols = [c[2] for c in getattr(w, 'heuristic_calls', []) if c[0] == 'prepare']
+        if tols != [tol_dr] or any(type(x) is not type(tol_dr) for x in tols):
+            fails.append(('C14', 'stated_tolerance', 'the objective is anchored with tolerance(s) %r, the stated tolerance is %r' % (tols, tol_dr)))
+        calls = getattr(w, 'solve_calls', [])
+        if len(calls) >= 2 and any(c != calls[0] for c in calls[1:]):
+            fails.append(('C14', 'same_solver_options', 'the solves of one call to PEP.solve receive different solver options: first %r, then %r' % (
+                calls[0], [c for c in calls[1:] if c != calls[0]][0])))
         if heuristic == 'trace' and float(np.trace(pep.G_value)) > tr0 + 100 * tol(t0) * (1 + abs(tr0)):
             fails.append(('C14', 'trace', 'trace of the Gram matrix %.6g after the trace heuristic, %.6g before' % (np.trace(pep.G_value), tr0)))
     finally:
